@@ -332,6 +332,15 @@ func c16Scenarios(tier string) []c16Scenario {
 					mk("other-id-equal-end", 2, 0, c16Base+n/4, n-n/4) // other history, ends exactly at the leader's newest byte
 					mk("other-id-snapshot", 2, 500, c16Base+n, 100)    // other history with a snapshot at the leader's newest offset
 					mk("other-id-collected", 2, 0, c16Base-300, 200)   // other history, ends before the leader's oldest byte
+					// a cache that holds ONLY a snapshot (the state between the last snapshot chunk and the
+					// first log byte), relative to the leader's oldest retained byte
+					if tier != "thorough" && !(ck.seg == 1<<20 && (n == 100 || n == 5000)) {
+						continue // (the leader's log length and chunking hardly matter to these)
+					}
+					mk("collected-snapshot-only", 1, 700, c16Base-300, -1)         // same id: snapshot ends before the leader's oldest byte
+					mk("collected-snapshot-and-empty-log", 1, 700, c16Base-300, 0) // ... and a log writer that never received a byte
+					mk("snapshot-only-inside", 1, 700, c16Base+n/4, -1)            // same id: snapshot at an offset the leader's log still covers
+					mk("other-id-collected-snapshot-only", 2, 500, c16Base-300, -1)
 				}
 			}
 		}
@@ -444,6 +453,24 @@ func c16Scenarios(tier string) []c16Scenario {
 				for _, fk := range []string{"empty", "equal"} {
 					out = append(out, c16Scenario{LKind: lk, FKind: fk, Leader: L, Follower: fs[fk], Extra: 600, Switch: "resync-new-id", SwitchAt: "handshake", Window: w})
 				}
+			}
+		}
+	}
+	// the leader loses its snapshot and old log while a transfer is interrupted: at the first
+	// fault it comes back with the same run id and only a log that starts 500 bytes beyond its
+	// previous newest byte (a restarted memory leader that continues its source's stream, or a
+	// collector that has run). Every interruption point is enumerated, in particular the one
+	// right after the last snapshot chunk and before the first log chunk: the follower then
+	// holds exactly a snapshot and opens a NEW session against the collected leader.
+	for _, n := range []int64{100, 5000} {
+		for _, b := range bes {
+			L := c16Side{Backend: b.l, Hist: 1, Snap: c16SnapFor(n), Left: c16Base, Len: n, Chunk: 1 << 20, Seg: 1 << 20}
+			for _, fk := range []string{"collected", "empty"} {
+				F := c16Side{Backend: b.f, Hist: 1, Left: c16Base - 300, Len: 200, Chunk: 1 << 20, Seg: 1 << 20, Reopen: b.reopen}
+				if fk == "empty" {
+					F = c16Side{Backend: b.f, Hist: 0, Len: -1, Chunk: 1 << 20, Seg: 1 << 20, Reopen: b.reopen}
+				}
+				out = append(out, c16Scenario{LKind: "snap+log", FKind: fk, Leader: L, Follower: F, Extra: 600, Switch: "relog-same-id", SwitchAt: "fault"})
 			}
 		}
 	}
@@ -796,6 +823,8 @@ type c16Run struct {
 	faulted  bool
 	// the append that follows the first fault is a separate event (after quiescence)
 	wantAppend bool
+	wantSwitch bool
+	relogLeft  int64 // "relog-same-id": where the leader's new log starts
 	leader     *ReplicaLeader
 	sy         *syncer
 	notReady   bool
@@ -1018,6 +1047,27 @@ func (r *c16Run) observe() {
 			}
 			prev = s
 		}
+		// a complete snapshot that is followed by log bytes must be followed gap-free: the log has
+		// to cover the snapshot's offset (a reader continues there after the snapshot body)
+		var first, last *c16Seg
+		for i := range h.Segs {
+			if len(h.Segs[i].Data) > 0 {
+				if first == nil {
+					first = &h.Segs[i]
+				}
+				last = &h.Segs[i]
+			}
+		}
+		for _, sn := range h.Snaps {
+			if first == nil || sn.Partial || int64(len(sn.Data)) < sn.Size || r.snapOf(hist, sn.Left, sn.Size) == nil {
+				continue
+			}
+			if lr := last.Left + int64(len(last.Data)); first.Left > sn.Left || lr < sn.Left {
+				r.fail("the follower holds "+under+" a snapshot and a log that does not continue at the snapshot's offset",
+					"gap", map[string]interface{}{"run_id": id[:4], "snapshot": sn.Name, "snapshot_offset": sn.Left, "log_from": first.Left, "log_to": lr})
+				return
+			}
+		}
 	}
 }
 
@@ -1113,7 +1163,11 @@ func (r *c16Run) switchBegin() {
 	if r.scn.Switch == "resync-new-id" {
 		newHist = 3
 	}
-	r.logf("leader starts a full re-synchronisation with its source: log writer ends, run ids := [%s], DelRunId(%s), SetRunId(%s)", c16IDs[newHist][:4], r.L.id[:4], c16IDs[newHist][:4])
+	if r.scn.Switch == "relog-same-id" {
+		r.logf("leader loses its cache and continues its source's stream later: log writer ends, DelRunId(%s), SetRunId(%s)", r.L.id[:4], r.L.id[:4])
+	} else {
+		r.logf("leader starts a full re-synchronisation with its source: log writer ends, run ids := [%s], DelRunId(%s), SetRunId(%s)", c16IDs[newHist][:4], r.L.id[:4], c16IDs[newHist][:4])
+	}
 	if r.lch.aofGate != nil {
 		r.lch.aofGate.Close(nil)
 		r.lch.aofW.Close()
@@ -1130,7 +1184,14 @@ func (r *c16Run) switchBegin() {
 	if newHist == 1 {
 		kind, left = 2, oldRight+500 // same history, later snapshot
 	}
-	r.snaps = append(r.snaps, c16SnapID{hist: newHist, kind: kind, left: left, size: 700})
+	if r.scn.Switch == "relog-same-id" {
+		r.relogLeft = oldRight + 500 // no snapshot: only a log from a later offset
+		if oldRight < 0 {
+			r.relogLeft = c16Base + 500
+		}
+	} else {
+		r.snaps = append(r.snaps, c16SnapID{hist: newHist, kind: kind, left: left, size: 700})
+	}
 	r.switchPhase, r.switchAt = 1, r.virt
 	r.deadline = r.virt + c16Horizon
 }
@@ -1138,6 +1199,23 @@ func (r *c16Run) switchBegin() {
 // switchData: the new snapshot and the first log bytes arrive at the leader.
 func (r *c16Run) switchData() bool {
 	r.events++
+	if r.scn.Switch == "relog-same-id" {
+		r.logf("leader's log restarts at offset %d with 300 bytes, no snapshot", r.relogLeft)
+		g2 := newGate()
+		aw, err := r.lch.ch.NewAofWritter(g2, r.relogLeft)
+		if err != nil {
+			return false
+		}
+		aw.Start()
+		c16Feed(g2, r.L.hist, 0, r.relogLeft, 300, 1<<20)
+		r.lch.aofGate, r.lch.aofW = g2, aw
+		r.L.snap = nil
+		r.L.right = r.relogLeft + 300
+		r.extra = r.appended + 600
+		r.switchPhase = 2
+		r.deadline = r.virt + c16Horizon
+		return true
+	}
 	sn := r.snaps[len(r.snaps)-1]
 	r.logf("leader receives its new snapshot (offset %d, %d bytes) and 300 log bytes", sn.left, sn.size)
 	g := newGate()
@@ -1211,6 +1289,13 @@ func (r *c16Run) drive() string {
 		if r.wire >= c16MaxWire || steps >= c16MaxSteps {
 			return "no-convergence"
 		}
+		if r.wantSwitch {
+			r.wantSwitch = false
+			if r.switchPhase == 0 {
+				r.switchBegin()
+				continue
+			}
+		}
 		if r.wantAppend {
 			r.wantAppend = false
 			if r.append() {
@@ -1246,6 +1331,9 @@ func (r *c16Run) drive() string {
 				if !r.faulted && r.scn.AppendAtFault {
 					r.wantAppend = true // the next event, after quiescence
 				}
+				if !r.faulted && r.scn.Switch != "" && r.scn.SwitchAt == "fault" {
+					r.wantSwitch = true // the next event, after quiescence
+				}
 				r.faulted = true
 			} else {
 				r.logf("msg %d delivered: %s", r.wire, desc)
@@ -1260,7 +1348,7 @@ func (r *c16Run) drive() string {
 			if r.append() {
 				continue
 			}
-			if r.scn.Switch != "" && r.switchPhase == 0 {
+			if r.scn.Switch != "" && r.scn.SwitchAt == "" && r.switchPhase == 0 {
 				r.switchBegin()
 				continue
 			}
